@@ -65,8 +65,8 @@ InvSeqScript ==
             R2 == S[r]
             sc == WalkSeq(R2.lst[c], 1, InsertSet(R, R2), DeleteSet(R, R2), R2.dead)
             before == Visible(E, R, c)
-        IN /\ Fits(sc, Len(before), 0, 1)
-           /\ ApplySeq(sc, before, 0, 1) = Visible(E, R2, c)
+        IN /\ Fits(E, sc, before, "elem")
+           /\ ApplySeq(E, sc, before, "elem") = Visible(E, R2, c)
 
 InvKeyScript ==
   \A r \in Reps : \A c \in DOMAIN S[r].lst :
